@@ -8,7 +8,11 @@ RELATED = {'C01-m1':['C01','C17'],'C01-m2':['C01','C14'],'C02-m1':['C02','C01'],
  'C04-m1':['C04','C16'],'C04-m2':['C04'],'C05-m1':['C05','C06'],'C05-m2':['C05','C07'],'C06-m1':['C06'],'C06-m2':['C06'],'C07-m1':['C07','C03'],
  'C07-m2':['C07','C05'],'C10-m1':['C10'],'C10-m2':['C10','C11'],'C11-m1':['C11','C10'],'C11-m2':['C11','C04'],'C14-m1':['C14'],'C14-m2':['C14','C01'],
  'C15-m1':['C15','C06'],'C15-m2':['C15'],'C16-m1':['C16'],'C16-m2':['C16'],'C17-m1':['C17','C01'],'C17-m2':['C17'],'C18-m1':['C18'],'C18-m2':['C18'],
- 'C19-m1':['C19','C20'],'C19-m2':['C19'],'C20-m1':['C20','C19'],'C20-m2':['C20']}
+ 'C19-m1':['C19','C20'],'C19-m2':['C19'],'C20-m1':['C20','C19'],'C20-m2':['C20'],
+ 'C01-m3':['C01','C02','C14'],'C01-m4':['C01','C02'],'C02-m3':['C02','C01'],'C02-m4':['C02','C14'],'C03-m3':['C03','C02'],'C03-m4':['C03'],'C04-m3':['C04'],'C04-m4':['C04','C11'],
+ 'C05-m3':['C05','C06'],'C05-m4':['C05','C07'],'C06-m3':['C06','C15'],'C06-m4':['C06','C05'],'C07-m3':['C07','C14'],'C07-m4':['C07','C10'],'C10-m3':['C10','C11'],'C10-m4':['C10','C07'],
+ 'C11-m3':['C11','C20'],'C11-m4':['C11','C10'],'C14-m3':['C14','C07'],'C14-m4':['C14','C07'],'C15-m3':['C15','C06'],'C15-m4':['C15','C06'],'C16-m3':['C16','C04'],'C16-m4':['C16'],
+ 'C17-m3':['C17','C01'],'C17-m4':['C17','C01'],'C18-m3':['C18'],'C18-m4':['C18'],'C19-m3':['C19'],'C19-m4':['C19'],'C20-m3':['C20','C11'],'C20-m4':['C20']}
 def one(d):
     name=os.path.basename(d)
     meta=json.load(open(os.path.join(d,'meta.json')))
